@@ -293,6 +293,11 @@ class QGen:
         elif form in ("evt_tuple", "evt_dict"):
             n = r.choice([2, 2, 3])
             cols = [self.evt_column("e", depth) for _ in range(n)]
+            if r.random() < 0.35:
+                # bias: a column that can fault (First) AFTER columns that already pushed / assigned their values
+                s_, et_ = self.seq_of_obj("e", 1)
+                cols.append(f"{s_}.First().{r.choice(DOUBLE_METHODS)}()")
+                self.shape.append("first_last")
             if form == "evt_tuple":
                 steps.append(["Select", f"lambda e: ({', '.join(cols)})"])
             else:
